@@ -9,7 +9,8 @@ Local Open Scope N_scope.
 (* bit-level helpers                                                   *)
 (* ------------------------------------------------------------------ *)
 Ltac xor_solve :=
-  apply N.bits_inj; intro; repeat rewrite N.lxor_spec; repeat rewrite N.bits_0; btauto.
+  apply N.bits_inj; intro; repeat rewrite N.lxor_spec;
+  repeat match goal with |- context [N.testbit 0 ?i] => rewrite (N.bits_0 i) end; btauto.
 
 Lemma lt_pow2_of_bits x n : (forall i, n <= i -> N.testbit x i = false) -> x < 2 ^ n.
 Proof.
@@ -234,6 +235,27 @@ Lemma xtimes_unfold r :
   xtimes r = if N.testbit (N.double r) 32 then N.lxor (N.double r) P else N.double r.
 Proof. reflexivity. Qed.
 
+Lemma xpow_O r : xpow 0 r = r.
+Proof. reflexivity. Qed.
+
+Lemma xpow_S k r : xpow (S k) r = xtimes (xpow k r).
+Proof. reflexivity. Qed.
+
+Lemma xpow_succ_r k r : xpow (S k) r = xpow k (xtimes r).
+Proof. unfold xpow. cbn [iter_n]. symmetry. apply iter_comm. Qed.
+
+Lemma xpow_linear_pre : linear xtimes -> forall k, linear (xpow k).
+Proof. intros L k. apply linear_iter, L. Qed.
+
+Lemma fold_pstep_zeros k r : fold_left (pstep P) (repeat false k) r = xpow k r.
+Proof.
+  revert r. induction k as [|k IH]; intros r; [reflexivity|].
+  cbn [repeat fold_left]. rewrite IH. fold (xtimes r). rewrite xpow_succ_r. reflexivity.
+Qed.
+
+(* keep tactic-level unification from unfolding 32 nested division steps *)
+Global Opaque xtimes xpow.
+
 Lemma xtimes_linear : linear xtimes.
 Proof.
   intros a b. rewrite !xtimes_unfold, double_lxor, N.lxor_spec.
@@ -241,7 +263,7 @@ Proof.
 Qed.
 
 Lemma xpow_linear k : linear (xpow k).
-Proof. apply linear_iter, xtimes_linear. Qed.
+Proof. apply xpow_linear_pre, xtimes_linear. Qed.
 
 Lemma pstep_lin r b : pstep P r b = N.lxor (xtimes r) (N.b2n b).
 Proof.
@@ -280,16 +302,10 @@ Lemma pstep_lt r b : r < 2 ^ 32 -> pstep P r b < 2 ^ 32.
 Proof. intros H. rewrite pstep_lin. apply lxor_lt_pow2; [apply xtimes_lt, H | apply b2n_lt]. Qed.
 
 Lemma xpow_lt k r : r < 2 ^ 32 -> xpow k r < 2 ^ 32.
-Proof. intros H. induction k as [|k IH]; [exact H|]. cbn [xpow iter_n]. apply xtimes_lt, IH. Qed.
+Proof. intros H. induction k as [|k IH]; [rewrite xpow_O; exact H|]. rewrite xpow_S. apply xtimes_lt, IH. Qed.
 
 Lemma xpow_0 k : xpow k 0 = 0.
 Proof. apply linear_0, xpow_linear. Qed.
-
-Lemma xpow_S k r : xpow (S k) r = xtimes (xpow k r).
-Proof. reflexivity. Qed.
-
-Lemma xpow_succ_r k r : xpow (S k) r = xpow k (xtimes r).
-Proof. unfold xpow. cbn [iter_n]. symmetry. apply iter_comm. Qed.
 
 Lemma pmod_pos_lt p : pmod_pos p P < 2 ^ 32.
 Proof.
@@ -351,12 +367,6 @@ Proof.
   apply (pmod_lxor_n n); apply Hb; lia.
 Qed.
 
-Lemma fold_pstep_zeros k r : fold_left (pstep P) (repeat false k) r = xpow k r.
-Proof.
-  revert r. induction k as [|k IH]; intros r; [reflexivity|].
-  cbn [repeat fold_left]. rewrite IH. fold (xtimes r). rewrite xpow_succ_r. reflexivity.
-Qed.
-
 Lemma pmod_shiftl x k : pmod (N.shiftl x (N.of_nat k)) P = xpow k (pmod x P).
 Proof. rewrite <- poly_of_bits_from_zeros, pmod_poly_of_bits_from. apply fold_pstep_zeros. Qed.
 
@@ -375,7 +385,7 @@ Lemma horner_shift32 bits : forall R S,
   fold_left astep bits (N.lxor (xpow 32 R) S).
 Proof.
   induction bits as [|b l IH]; intros R S.
-  { cbn [fold_left length]. change (xpow 0 S) with S. reflexivity. }
+  { cbn [fold_left length]. rewrite xpow_O. reflexivity. }
   cbn [fold_left length]. rewrite (xpow_succ_r (length l)), IH. f_equal.
   unfold astep. rewrite pstep_lin, (xpow_linear 32), xpow_b2n, xtimes_linear.
   rewrite <- (xpow_S 32 R), <- (xpow_succ_r 32 R).
@@ -387,13 +397,13 @@ Lemma feed_short bits : forall R, (length bits <= 32)%nat ->
   fold_left (pstep P) bits R = N.lxor (xpow (length bits) R) (poly_of_bits bits).
 Proof.
   induction bits as [|b l IH] using rev_ind; intros R Hl.
-  - cbn. rewrite N.lxor_0_r. reflexivity.
+  - cbn [length fold_left]. rewrite xpow_O. change (poly_of_bits []) with 0. rewrite N.lxor_0_r. reflexivity.
   - rewrite app_length in Hl. cbn [length] in Hl.
     rewrite fold_left_app. cbn [fold_left]. rewrite IH by lia.
     rewrite pstep_lin, xtimes_linear.
     unfold poly_of_bits. rewrite poly_of_bits_from_app. cbn [poly_of_bits_from fold_left].
     fold (poly_of_bits l). rewrite pshift_in_lxor, app_length. cbn [length].
-    replace (length l + 1)%nat with (S (length l)) by lia. cbn [xpow iter_n]. fold (xpow (length l)).
+    replace (length l + 1)%nat with (S (length l)) by lia. rewrite xpow_S.
     rewrite (xtimes_small (poly_of_bits l)).
     + xor_solve.
     + apply N.lt_le_trans with (2 ^ N.of_nat (length l)); [apply poly_of_bits_lt|].
